@@ -385,7 +385,7 @@ class ExtendedNonlocalGame:
         bob_povms = defaultdict(cvxpy.Variable)
         for y_ques in range(num_inputs_bob):
             for b_ans in range(num_outputs_bob):
-                bob_povms[y_ques, b_ans] = cvxpy.Variable((dim, dim), hermitian=True)
+                bob_povms[y_ques, b_ans] = cvxpy.Variable((num_outputs_bob, num_outputs_bob), hermitian=True)
         win = 0
         for x_ques in range(num_inputs_alice):
             for y_ques in range(num_inputs_bob):
